@@ -147,7 +147,15 @@ func edge(r *vh.Rng, bits uint) int64 {
 // the range the ISA allows (the description is then expected to satisfy wf in
 // Coq where wf is defined for the format).
 func genDesc(r *vh.Rng, fn string, fi *fmtInfo, valid bool) *Desc {
+	return genDescRow(r, fn, fi, valid, -1)
+}
+
+// genDescRow: as genDesc, for row number rowIdx of the format (-1: a random row).
+func genDescRow(r *vh.Rng, fn string, fi *fmtInfo, valid bool, rowIdx int) *Desc {
 	row := fi.rows[r.Intn(len(fi.rows))]
+	if rowIdx >= 0 {
+		row = fi.rows[rowIdx]
+	}
 	d := &Desc{F: fn, Op: row.op, N: map[string]int64{}, B: map[string]bool{}}
 	anyOp := func() *Opnd { return &Opnd{K: "sp", V: int64(r.Intn(512))} }
 	src := func(scalar, lit bool) *Opnd {
@@ -239,7 +247,7 @@ func genDesc(r *vh.Rng, fn string, fi *fmtInfo, valid bool) *Desc {
 			}
 		}
 	case "Ds":
-		if r.Intn(3) == 0 { // the dual-offset families, which the shipped kernels hardly use
+		if rowIdx < 0 && r.Intn(3) == 0 { // the dual-offset families, which the shipped kernels hardly use
 			var dual []rowInfo
 			for _, x := range fi.rows {
 				if dsDualOffset(x.op) {
@@ -855,6 +863,18 @@ func main() {
 				c = e.wordCase("short", cdna3, buf, nil, false, fis, r)
 			}
 			cases = append(cases, c)
+		}
+		// one valid description for every row of every decode table
+		for _, fn := range descNames {
+			for ri := range fis[fn].rows {
+				r := rng.Fork()
+				d := genDescRow(r, fn, fis[fn], true, ri)
+				buf := d.bytes()
+				if r.Bool() {
+					buf = append(buf, byte(r.U64()), byte(r.U64()))
+				}
+				cases = append(cases, e.wordCase("encrow", r.Bool(), buf, d, true, fis, r))
+			}
 		}
 		if !*noKernels {
 			ks := shippedKernels(*repo)
